@@ -26,7 +26,7 @@ func tearOffsets(n, maxAll int) []int {
 	if n < 2 {
 		return nil
 	}
-	if n-1 <= maxAll {
+	if n-1 <= maxAll || n <= 16 { // a block header is always torn at every byte length
 		out := make([]int, 0, n-1)
 		for b := 1; b < n; b++ {
 			out = append(out, b)
@@ -194,4 +194,91 @@ func (x *Exec) executeIn(h *History, in *Interner, dir string, steps []Step) *Ru
 	return x.executeDir(h, in, dir, false, nil, steps)
 }
 
-func (x *Exec) runFault(h *History) {}
+// ---------------------------------------------------------------- write faults (C25)
+
+// faultTail is appended to every history of the fault mode: with the fault cleared, later writes are made,
+// synced, and the file is loaded with the writer open, after a close, and after one more session.
+func faultTail(level string) []Step {
+	return []Step{{Ev: "open"}, {Ev: "put", Op: "ins", K: 1, P: 1}, {Ev: "sync"}, {Ev: "load"}, {Ev: "put", Op: "upd", K: 2, P: 2},
+		{Ev: "close", Same: level == "ch"}, {Ev: "load"}, {Ev: "open"}, {Ev: "put", Op: "del", K: 1}, {Ev: "close"}, {Ev: "load"}}
+}
+
+// runFault executes the history once without faults (to count its file operations) and then once per fault
+// placement: every single fault (operation x {error, short write}) and every / a seeded sample of double faults.
+func (x *Exec) runFault(h *History) {
+	if len(h.Faults) > 0 { // replay of one placement
+		r := x.execute(h, newInterner(h), false, h.Faults, h.Steps)
+		x.writeHistory(h, r.events)
+		os.RemoveAll(r.dir)
+		return
+	}
+	h.Steps = append(h.Steps, faultTail(h.Level)...)
+	base := x.execute(h, newInterner(h), true, nil, h.Steps)
+	os.RemoveAll(base.dir)
+	x.writeHistory(h, base.events)
+	n0 := base.allops
+	x.stat("fault_ops", n0)
+	x.stat("fault_foreign_ops", base.foreign)
+	rawOf := func(r *Run, at int) (string, int) { // raw kind and byte length of the at-th operation
+		i := 0
+		for _, op := range r.ops {
+			i++
+			if i == at {
+				return op.Raw, len(op.Data)
+			}
+		}
+		return "", 0
+	}
+	modes := func(r *Run, at int) []string {
+		raw, n := rawOf(r, at)
+		if raw == "close" && r.ops[at-1].Path == r.path {
+			return nil // closing the descriptor is not a disk write (the hook's result is ignored there)
+		}
+		if raw == "remove" {
+			return nil // best-effort cleanup, result ignored by the engine
+		}
+		if raw == "write" && n >= 2 {
+			return []string{"err", "short"}
+		}
+		return []string{"err"}
+	}
+	id := h.ID * 100000
+	emit := func(fs []Fault) *Run {
+		id++
+		h2 := *h
+		h2.ID = id
+		h2.Faults = fs
+		r := x.execute(&h2, newInterner(&h2), true, fs, h2.Steps)
+		os.RemoveAll(r.dir)
+		x.writeHistory(&h2, r.events)
+		x.stat("fault_runs", 1)
+		return r
+	}
+	rng := newRand(x.cfg.Seed + int64(h.ID))
+	budget := x.cfg.MaxPlace
+	if budget == 0 {
+		budget = 200
+	}
+	type pair struct{ a, b Fault }
+	var pairs []pair
+	for at := 1; at <= n0; at++ {
+		for _, m := range modes(base, at) {
+			r1 := emit([]Fault{{At: at, Mode: m}})
+			if x.cfg.Faults >= 2 {
+				for at2 := at + 1; at2 <= r1.allops; at2++ {
+					for _, m2 := range modes(r1, at2) {
+						pairs = append(pairs, pair{Fault{at, m}, Fault{at2, m2}})
+					}
+				}
+			}
+		}
+	}
+	x.stat("fault_pairs_possible", len(pairs))
+	if len(pairs) > budget {
+		rng.Shuffle(len(pairs), func(i, j int) { pairs[i], pairs[j] = pairs[j], pairs[i] })
+		pairs = pairs[:budget]
+	}
+	for _, p := range pairs {
+		emit([]Fault{p.a, p.b})
+	}
+}
